@@ -23,17 +23,17 @@ CONSTANTS Names,       \* names that may occur in a tree
 
 \* kind and attributes of a name (fixed alphabet; see lib/prop_c15.py)
 Kind(n) == CASE n \in {"a.go", "b.go", "c.txt"} -> "file"
-             [] n \in {"vendor", "testdata", ".h", "_u", "sub", "d.go"} -> "dir"
+             [] n \in {"vendor", "testdata", ".h", "_u", "sub", "d.go", "_g.go"} -> "dir"
              [] n = "l.go" -> "linkfile"      \* symlink to a regular .go file outside the tree
              [] n = "ld" -> "linkdir"         \* symlink to a directory with a .go file outside the tree
-IsGoName(n)  == n \in {"a.go", "b.go", "d.go", "l.go"}
-Excluded(n)  == n \in {"vendor", "testdata", ".h", "_u"}
+IsGoName(n)  == n \in {"a.go", "b.go", "d.go", "l.go", "_g.go"}
+Excluded(n)  == n \in {"vendor", "testdata", ".h", "_u", "_g.go"}      \* ("_g.go": an excluded directory named like a Go file)
 DirNames     == {n \in Names : Kind(n) = "dir"}
 \* byte order of the names (no name is a prefix of another, so comparing
 \* paths component-wise is comparing the path strings)
-Rank(n) == CASE n = ".h" -> 1 [] n = "_u" -> 2 [] n = "a.go" -> 3 [] n = "b.go" -> 4 [] n = "c.txt" -> 5
-             [] n = "d.go" -> 6 [] n = "l.go" -> 7 [] n = "ld" -> 8 [] n = "sub" -> 9 [] n = "testdata" -> 10
-             [] n = "vendor" -> 11
+Rank(n) == CASE n = ".h" -> 1 [] n = "_g.go" -> 2 [] n = "_u" -> 3 [] n = "a.go" -> 4 [] n = "b.go" -> 5 [] n = "c.txt" -> 6
+             [] n = "d.go" -> 7 [] n = "l.go" -> 8 [] n = "ld" -> 9 [] n = "sub" -> 10 [] n = "testdata" -> 11
+             [] n = "vendor" -> 12
 
 Small(S) == {T \in SUBSET S : Cardinality(T) <= MaxEntries}
 \* trees of depth 2: top-level entries, and entries of each top-level directory
